@@ -11,7 +11,9 @@ with the input exhausted); (R4) rejection rows; (R5) the dispatch in
 several -> multipart iff estimate < L with a constant in the accepted family; the
 estimate is a checked fold or an explicit loop over the whole resolved list that
 gives up only on overflow or on a sound early stop against L);
-(R6) request order is preserved (no reordering call on the range list).
+(R6) request order is preserved (no reordering call on the range list; in the
+multipart stream position h emits the header rendered for range h and the bytes of
+range h).
 Does not decide: OWS tokenisation beyond the parser's own trimming; that the
 tokeniser accepts exactly the RFC grammar."""
 from ..px import const, is_const, is_agg, agg_get, mk_binop, TY, fmt_term
@@ -351,6 +353,10 @@ def run(ctx):
     r4_rejections(ctx, A)
     r4_tokenisation(ctx, A)
     r6_order(ctx, A)
+    # "a multipart 206 of exactly those ranges in request order": part h carries the header rendered for range h and the bytes of
+    # range h (the same position indexes both lists)
+    from . import multipart as MP
+    MP.correspondence(ctx, "C03.R6.pieces")
     SM.c03_r5(ctx)
     ctx.assume("u64::from_str accepts an optional leading '+' followed by 1*DIGIT and nothing else (std documentation)")
     ctx.assume("str::find(ch) returns the byte index of the first match; ASCII needles are one byte wide")
